@@ -487,7 +487,7 @@ def gen_build(rng, nrand, exhaustive_len=1, kinds=('g', 't')):
         yield f'B {kind} {rng.choice(tyv)} {hx(rng.choice(["n", "", "N-_.m", rstr(rng, 0, 4)]))} {",".join(seq)}'
 
 # ------------------------------------------------------------------ G-qops
-QK = ['a', 'A', 'b', 'B', 'a.b', 'a_b', 'ab', '', '!', 'repository_url', 'checksum', 'é', 'K']
+QK = ['a', 'A', 'b', 'B', 'a.b', 'a_b', 'ab', '', '!', 'repository_url', 'checksum', 'é', 'K', 'vcs_url', 'Type', 'download_url', 'file_name', 'platform', 'classifier']
 QV = ['', 'x', 'y']
 def qop_universe():
     ops = ['C', 't', 'l', 'tg', 'tc', 'td', 'tG', f'M:{hx("s")}', f'I:{hx("s")}', f'J:{hx("z")}', f'tr:{hx("u")}', f'tr:-']
@@ -498,6 +498,8 @@ def qop_universe():
             ops += [f'i:{hx(k)}:{hx(v)}', f'm:{hx(k)}:{hx(v)}', f'X:{hx(k)}:{hx(v)}', f'eo:{hx(k)}:{hx(v)}', f'ew:{hx(k)}:{hx(v)}',
                     f'ei:{hx(k)}:{hx(v)}', f'em:{hx(k)}:{hx("+")}:{hx(v)}']
     ops += [f'tC:{c}' for c in CSOPS[:6]]
+    for i in range(7):
+        ops += [f'tk:{i}:{hx("v" + str(i))}', f'tk:{i}:-', f'tkg:{i}', f'tkd:{i}']
     return ops
 def gen_qops(rng, nrand):
     ops = qop_universe()
